@@ -113,7 +113,8 @@ func discharge(o *Obligation, cfg SolverCfg) {
 		for range names {
 			rr := <-ch
 			runs = append(runs, rr)
-			if rr.result == "unsat" || rr.result == "sat" {
+			// a sat answer in cex mode (weaker axioms) is only a candidate: keep waiting for a proof
+			if rr.result == "unsat" || (rr.result == "sat" && rr.name != "z3-new[cex-mode]") {
 				cancel()
 				break
 			}
@@ -210,4 +211,24 @@ func dischargeAll(obls []*Obligation, covers []*Obligation, cfg SolverCfg) {
 		}()
 	}
 	wg.Wait()
+}
+
+// quickSat asks z3 whether cond is satisfiable together with the facts so far (used to stop unrolling).
+// Anything but a definite unsat counts as "maybe".
+func (fc *FnCtx) quickSat(cond *Term) bool {
+	if cond.S == "false" {
+		return false
+	}
+	dir := filepath.Join(os.TempDir(), "govc-quick")
+	os.MkdirAll(dir, 0o755)
+	f, err := os.CreateTemp(dir, "q*.smt2")
+	if err != nil {
+		return true
+	}
+	name := f.Name()
+	f.WriteString(fc.sc.Render(len(fc.sc.facts), cond.S, false, false))
+	f.Close()
+	defer os.Remove(name)
+	r := runSolver(context.Background(), "z3-new", name, 2)
+	return r.result != "unsat"
 }
